@@ -77,7 +77,7 @@ func callsSource(i int, s callsScen) string {
 	} else {
 		fmt.Fprintf(&b, "func E(%s) string { return %s }\n", eparams, mark)
 	}
-	b.WriteString("\nfunc Canon(s string) string { return \"C(\" + s + \")\" }\n\nfunc Tok(v int) string { return tok(v) }\n")
+	b.WriteString("\nfunc Canon(s string) string {\n\tif s == \"\" {\n\t\ts = \"z\"\n\t}\n\treturn \"C(\" + s + \")\"\n}\n\nfunc Tok(v int) string { return tok(v) }\n")
 	names := []string{"F", "G"}
 	for _, id := range []string{"A", "B"} {
 		var sf, tf []string
